@@ -8,7 +8,7 @@ import hashlib
 import json
 import os
 
-from .ledger import Ledger, HUMAN
+from .ledger import Ledger, HUMAN, norm
 from .world import World
 
 
@@ -105,6 +105,10 @@ class Exec:
                 else:
                     w.write(repo, p, c)
                 self.ledger.edit(olds[p] or "", c or "", who)
+                for ln in (op.get("desc") or {}).get("moved") or []:
+                    # a moved line is not a changed line; either its writer or the mover may be credited
+                    if self.ledger.who(ln) is not None:
+                        self.ledger.authors[norm(ln)].add(who)
                 if olds[p] and c:
                     hr = w.raw_git(repo, "show", "HEAD:" + p)
                     if hr.code == 0:
